@@ -392,7 +392,8 @@ CLAIMED = {
              'canonical and in range; Binary/Octal/Hex digits denote the value exactly, Display/Debug digits are the half-even rounding at the digits shown and strictly within half an ulp of the type; '
              'with precision p the digits are the half-even rounding at p digits in every radix), flags_only_pad, debug_eq_display, and round_trip (the default output parses back through the modelled '
              'from_str, using C08, to exactly the same bits without overflow). Tie: the function-by-function model of display.rs agrees with the code on every request (all 507 layouts, 2112 format '
-             'specs incl. multi-byte fill, both profiles); every printed string is also judged by the exact-rational verdict and parsed back by the implementation. Defect found this way repaired (fcf22ad).',
+             'specs incl. multi-byte fill, both profiles); every printed string is also judged by the exact-rational verdict and parsed back by the implementation. Defect found this way repaired (fcf22ad). '
+             'SfxProps/C09Verdict.lean: the checker\'s own exact-rational verdict on printed strings is proved to accept everything the model prints (no false alarm possible from it when implementation = model).',
         design_ref='7/C09', note=COMMON_NOTE + ' Not proved (not asked): minimality of the library-chosen digit count.', technique='Lean 4 proof (model = exact rational specification) + differential correspondence'),
     'C10': dict(
         text='Theorems (SfxProps.C10): encode has width/8 bytes, equals to_le_bytes and ignores the fractional-bit count; decode(encode a ++ rest) = (a, |rest|); '
